@@ -13,6 +13,7 @@ import (
 	"time"
 
 	"github.com/IrineSistiana/mosproxy/internal/dnsmsg"
+	"github.com/IrineSistiana/mosproxy/internal/pool"
 	"github.com/IrineSistiana/mosproxy/internal/upstream"
 	"github.com/panjf2000/gnet/v2"
 )
@@ -75,6 +76,19 @@ func (v *VerifRouter) CacheGet(q *dnsmsg.Question, remote netip.AddrPort) (*dnsm
 	defer releaseRequestContext(rc)
 	rc.RemoteAddr = remote
 	return v.r.cache.Get(context.Background(), q, rc)
+}
+
+// CacheGetRaw returns the memory cache's stored bytes for (q, remote) (nil on a miss), before they are decoded.
+// The caller releases the buffer with pool.ReleaseBuf.
+func (v *VerifRouter) CacheGetRaw(q *dnsmsg.Question, remote netip.Addr) pool.Buffer {
+	c := v.r.cache
+	if c.memory == nil {
+		return nil
+	}
+	k := cacheKey(q, c.ipMark(remote))
+	defer pool.ReleaseBuf(k)
+	b, _, _ := c.memory.Get(k)
+	return b
 }
 
 // CacheStoreAt stores resp in the memory cache with the given stored/expire times (Store always uses now).
